@@ -7,6 +7,7 @@ Props/C13.lean holds the soundness theorem of the analysis.  The dynamic part sn
 call and compares afterwards (also when the call raises); it is the failing-input search and validates the translator."""
 import sys, inspect, re, time
 from common import *  # noqa
+sys.path.insert(0, os.path.join(VERIF, 'translate')); import cores  # noqa: E402
 import effects_common as ec
 import effects_inputs as ei
 
@@ -172,7 +173,12 @@ def main():
     tr, res, summ = tres
     ec.selftest_breaks(ck, res)
     ck.count('translator_selftests', summ['selftests'])
+    # T-gen source pins (translate/cores.py): rename-tolerant normalised bodies of routines this check covers that have no interpreted tie
+    ck.cov['cores'] = cores.generate(families=['pinutil'])
+    for p_ in ck.cov['cores']['problems']:
+        ck.corr_break('core extractor (translate/cores.py)', p_)
     ok = ck.lean_gate(['BctVerif.Props.C13'], extra_modules=['BctVerif.Model.AliasIR'], gen_modules=['BctVerif.Gen.EffectsAlias'])
+    ck.lean_gate([], gen_modules=['BctVerif.Gen.CoresPinUtil'])
     mirror = {n: d['fails'] for n, d in res['alias'].items() if d['fails'] and d['public'] and n not in res['not_covered_static']}
     ec.name_failed_obligations(ck, 'BctVerif.Gen.EffectsAlias', mirror)
     if ck.tier == 'thorough' and ok:
